@@ -9,7 +9,7 @@
    follows the repaired code; the formerly failing input is part of the non-vacuity example below. *)
 From EG Require Import Base.Prelude Model.Geometry Model.Style Model.Line Model.Thickline Model.Join Model.JoinTri.
 From EG Require Import Proofs.Join Proofs.JoinTri Proofs.JoinHull Proofs.JoinDraw Proofs.JoinTriDraw.
-From EG Require Proofs.JoinTriFill.
+From EG Require Proofs.JoinTriFill Proofs.JoinOutlineAny Proofs.JoinW1Fill Proofs.JoinW1All.
 Set Default Timeout 60.
 
 (* every corner of every segment that is not a skeleton, and the drawn (right) edge of every skeleton, lies in the box *)
@@ -72,6 +72,27 @@ Theorem C02_join_triangle_outline_w1_in_bbox : forall t p,
   In p (line_points (L b c)) \/ In p (line_points (L c a)) \/ In p (line_points (L a b)) ->
   contains (jt_bounding_box t) p = true.
 Proof. exact Proofs.JoinTriFill.outline_in_bbox. Qed.
+
+(* (b') stroke width 1, EVERY alignment (Center, Outside; Inside unless Triangle::is_collapsed): every pixel of pixels() lies in
+   the styled bounding box, which for width 1 is the box of the vertices (C19_join_tri_outline_w1_any) *)
+Theorem C02_join_triangle_w1_any_drawn_in_bbox : forall t al px p, tri_big t -> Proofs.JoinOutlineAny.w1_outline_case t al ->
+  jt_pixels t 1 al None = Some px -> In p (map fst px) ->
+  jt_styled_bounding_box t 1 al = Some (jt_bounding_box t) /\ contains (jt_bounding_box t) p = true.
+Proof. exact Proofs.JoinOutlineAny.tri_outline_w1_any_in_bbox. Qed.
+
+(* (b'') stroke width 1 together with a fill colour, every alignment (Inside unless collapsed): the fill line of a row lies
+   between two stroke scanlines of that row, so every pixel of pixels() is in the styled bounding box *)
+Theorem C02_join_triangle_w1_fill_drawn_in_bbox : forall t al f px p, tri_big t -> Proofs.JoinOutlineAny.w1_outline_case t al ->
+  jt_pixels t 1 al (Some f) = Some px -> In p (map fst px) ->
+  jt_styled_bounding_box t 1 al = Some (jt_bounding_box t) /\ contains (jt_bounding_box t) p = true.
+Proof. exact Proofs.JoinW1Fill.tri_w1_fill_in_bbox. Qed.
+
+(* (b3) stroke width 1, EVERY triangle (vertices within +-2^29), every alignment, with or without a fill colour: every pixel
+   of pixels() lies in the styled bounding box (Proofs/JoinW1All.v: proper triangles, triangles without area, collapsed Inside) *)
+Theorem C02_join_triangle_w1_all_drawn_in_bbox : forall t al fill px p, tri_big t ->
+  jt_pixels t 1 al fill = Some px -> In p (map fst px) ->
+  jt_styled_bounding_box t 1 al = Some (jt_bounding_box t) /\ contains (jt_bounding_box t) p = true.
+Proof. exact Proofs.JoinW1All.tri_w1_all_in_bbox. Qed.
 
 (* the geometric core: the scanline of a thick segment stays inside the x hull of the corners of its two joins *)
 Theorem C02_join_thick_segment_scanline_in_hull : forall lo hi t y,
